@@ -27,6 +27,8 @@ import (
 	"github.com/bufbuild/buf/private/bufpkg/bufmodule"
 	"github.com/bufbuild/buf/private/bufpkg/bufmodule/bufmoduletesting"
 	"github.com/bufbuild/buf/private/bufpkg/bufplugin"
+	"github.com/bufbuild/buf/private/pkg/slogext"
+	"github.com/bufbuild/buf/private/pkg/storage/storagemem"
 	"github.com/bufbuild/buf/private/pkg/wasm"
 	"github.com/bufbuild/protocompile/protoutil"
 	"github.com/bufbuild/verifharness/internal/hx"
@@ -104,6 +106,195 @@ func (c *Compiled) Reordered(r *hx.Rand) (*Compiled, error) {
 	}
 	return &Compiled{Sources: c.Sources, Image: img, Files: c.Files}, nil
 }
+
+// OrderedLast returns the same compiled schema as an image in which the named files come LAST
+// in Files() (in the given order), everything else keeping its relative order.
+func (c *Compiled) OrderedLast(last ...string) (*Compiled, error) {
+	isLast := map[string]int{}
+	for i, n := range last {
+		isLast[n] = i + 1
+	}
+	var head []bufimage.ImageFile
+	tail := make([]bufimage.ImageFile, len(last))
+	for _, f := range c.Image.Files() {
+		if i := isLast[f.Path()]; i > 0 {
+			tail[i-1] = f
+		} else {
+			head = append(head, f)
+		}
+	}
+	for _, f := range tail {
+		if f != nil {
+			head = append(head, f)
+		}
+	}
+	img, err := bufimage.NewImage(head)
+	if err != nil {
+		return nil, err
+	}
+	return &Compiled{Sources: c.Sources, Image: img, Files: c.Files}, nil
+}
+
+// ---------------------------------------------------------------------------------------------
+// Images with IMPORT files.  An image file is an import (ImageFile.IsImport()) when it is in the
+// image only because a target file imports it: `buf breaking --path a.proto` (a.proto imports
+// b.proto), or a file of a dependency module.  The breaking rule handlers do not look at the flag;
+// the client drops annotations located in import files only with BreakingWithExcludeImports.
+
+// How an image with import files is built.
+const (
+	TargetImagePaths  = iota // bufimage.ImageWithOnlyPathsAllowNotExist on the full image (`buf breaking img.binpb --path ..`)
+	TargetModulePaths        // one module built with LocalModuleWithTargetPaths (`buf breaking dir --path ..`)
+	TargetDepModule          // a targeted module + a NON-targeted dependency module (workspace sibling / dep)
+	NumTargetModes
+)
+
+var TargetModeNames = []string{"image-paths", "module-paths", "dep-module"}
+
+// ImporterName is the extra file added by CompileTargeted: it imports every other file of the
+// schema, so that with only this file targeted every other file is an import.
+const ImporterName = "zzimp/importer.proto"
+
+// ImportSpec says which files stay targets; every other file is in the image only if a target
+// (transitively) imports it, and then as an import.
+type ImportSpec struct {
+	Mode     int
+	Targets  []string // file names (besides the importer, which is always a target when Importer is set)
+	Importer bool     // add ImporterName (imports every file)
+}
+
+func importerSource(sources map[string]string) string {
+	names := make([]string, 0, len(sources))
+	for n := range sources {
+		names = append(names, n)
+	}
+	sort.Strings(names)
+	var sb strings.Builder
+	sb.WriteString("syntax = \"proto3\";\npackage zzimp;\n")
+	for _, n := range names {
+		sb.WriteString("import " + strconv.Quote(n) + ";\n")
+	}
+	return sb.String()
+}
+
+func buildModuleSetImage(mods []struct {
+	files    map[string][]byte
+	target   bool
+	paths    []string
+	hasPaths bool
+}) (img bufimage.Image, err error) {
+	b := bufmodule.NewModuleSetBuilder(Ctx, slogext.NopLogger, bufmodule.NopModuleDataProvider, bufmodule.NopCommitProvider)
+	for i, m := range mods {
+		bucket, err := storagemem.NewReadBucket(m.files)
+		if err != nil {
+			return nil, err
+		}
+		var opts []bufmodule.LocalModuleOption
+		if m.hasPaths {
+			opts = append(opts, bufmodule.LocalModuleWithTargetPaths(m.paths, nil))
+		}
+		b.AddLocalModule(bucket, fmt.Sprintf("verif-bucket-%d", i), m.target, opts...)
+	}
+	ms, err := b.Build()
+	if err != nil {
+		return nil, err
+	}
+	return bufimage.BuildImage(Ctx, Logger, bufmodule.ModuleSetToModuleReadBucketWithOnlyProtoFiles(ms))
+}
+
+// CompileTargeted builds the image of `sources` in which only spec.Targets (and the importer) are
+// targets.  Targets that do not exist in this version are skipped.
+func CompileTargeted(sources map[string]string, spec ImportSpec) (c *Compiled, err error) {
+	defer func() {
+		if r := recover(); r != nil {
+			err = fmt.Errorf("panic in CompileTargeted: %v", r)
+		}
+	}()
+	src := make(map[string]string, len(sources)+1)
+	for k, v := range sources {
+		src[k] = v
+	}
+	var targets []string
+	for _, t := range spec.Targets {
+		if _, ok := sources[t]; ok {
+			targets = append(targets, t)
+		}
+	}
+	if spec.Importer {
+		src[ImporterName] = importerSource(sources)
+		targets = append(targets, ImporterName)
+	}
+	if len(targets) == 0 {
+		return nil, errors.New("no target exists in this version")
+	}
+	bytesOf := func(keep func(string) bool) map[string][]byte {
+		m := map[string][]byte{}
+		for k, v := range src {
+			if keep(k) {
+				m[k] = []byte(v)
+			}
+		}
+		return m
+	}
+	type mod = struct {
+		files    map[string][]byte
+		target   bool
+		paths    []string
+		hasPaths bool
+	}
+	var img bufimage.Image
+	switch spec.Mode {
+	case TargetImagePaths:
+		full, err := Compile(src)
+		if err != nil {
+			return nil, err
+		}
+		img, err = bufimage.ImageWithOnlyPathsAllowNotExist(full.Image, targets, nil)
+		if err != nil {
+			return nil, err
+		}
+	case TargetModulePaths:
+		img, err = buildModuleSetImage([]mod{{files: bytesOf(func(string) bool { return true }), target: true, paths: targets, hasPaths: true}})
+		if err != nil {
+			return nil, err
+		}
+	case TargetDepModule:
+		isT := map[string]bool{}
+		for _, t := range targets {
+			isT[t] = true
+		}
+		dep := bytesOf(func(k string) bool { return !isT[k] })
+		if len(dep) == 0 {
+			img, err = buildModuleSetImage([]mod{{files: bytesOf(func(k string) bool { return true }), target: true}})
+		} else {
+			img, err = buildModuleSetImage([]mod{{files: bytesOf(func(k string) bool { return isT[k] }), target: true}, {files: dep, target: false}})
+		}
+		if err != nil {
+			return nil, err
+		}
+	default:
+		return nil, fmt.Errorf("unknown target mode %d", spec.Mode)
+	}
+	files, err := protodesc.NewFiles(bufimage.ImageToFileDescriptorSet(img))
+	if err != nil {
+		return nil, err
+	}
+	return &Compiled{Sources: src, Image: img, Files: files}, nil
+}
+
+// ImportFiles lists the files of the image that are imports.
+func (c *Compiled) ImportFiles() map[string]bool {
+	out := map[string]bool{}
+	for _, f := range c.Image.Files() {
+		if f.IsImport() {
+			out[f.Path()] = true
+		}
+	}
+	return out
+}
+
+// HasFile reports whether the image contains the file.
+func (c *Compiled) HasFile(name string) bool { return c.Image.GetFile(name) != nil }
 
 // ---------------------------------------------------------------------------------------------
 // Encoding for the Lean driver (see lean/Driver/Breaking.lean).
@@ -227,6 +418,7 @@ func (c *Compiled) Encode() string {
 		for i, x := range fdp.Extension {
 			encField(e, x, fd.Extensions().Get(i), nil)
 		}
+		e.b(imf.IsImport())
 	}
 	c.enc = e.sb.String()
 	return c.enc
@@ -514,6 +706,11 @@ func (e *ErrBreaking) Error() string { return e.Err.Error() }
 // Run calls the real bufcheck.Client.Breaking with `use` (category or rule ids) and `except`,
 // and canonicalises the annotations; every annotation's source path is recovered through idx.
 func (r *Runner) Run(v bufconfig.FileVersion, use, except []string, cur, prev *Compiled, idx PathIndex) (anns []Ann, err error) {
+	return r.RunX(v, use, except, cur, prev, idx, false)
+}
+
+// RunX is Run with the client's exclude-imports option (`buf breaking --exclude-imports`).
+func (r *Runner) RunX(v bufconfig.FileVersion, use, except []string, cur, prev *Compiled, idx PathIndex, excludeImports bool) (anns []Ann, err error) {
 	defer func() {
 		if rec := recover(); rec != nil {
 			err = &ErrBreaking{fmt.Errorf("panic: %v", rec)}
@@ -524,7 +721,11 @@ func (r *Runner) Run(v bufconfig.FileVersion, use, except []string, cur, prev *C
 	if err != nil {
 		return nil, &ErrBreaking{err}
 	}
-	err = r.client.Breaking(Ctx, bufconfig.NewBreakingConfig(cc, false), cur.Image, prev.Image)
+	var opts []bufcheck.BreakingOption
+	if excludeImports {
+		opts = append(opts, bufcheck.BreakingWithExcludeImports())
+	}
+	err = r.client.Breaking(Ctx, bufconfig.NewBreakingConfig(cc, false), cur.Image, prev.Image, opts...)
 	if err == nil {
 		return nil, nil
 	}
